@@ -551,6 +551,13 @@ Theorem c19_heuristics_src_refines : forall new orig nc ctx, heuristics_src new 
 Proof. exact heuristics_src_refines. Qed.
 Print Assumptions c19_heuristics_src_refines.
 
+(* panic site `self.details.nearby_registers += 1` (u32): whatever the compiled tests of calculate_heuristics are, the count is
+   between 0 and the number of valid registers — no overflow *)
+Theorem c19_heuristics_src_nearby_bound : forall new orig nc ctx,
+  0 <= d_nearby (heuristics_src new orig nc ctx) <= match ctx with Some (_, regs) => Z.of_nat (length regs) | None => 0 end.
+Proof. exact heuristics_src_nearby_bound. Qed.
+Print Assumptions c19_heuristics_src_nearby_bound.
+
 Theorem c19_check_src2_refines : forall c address adj op ctx iregs rs,
   check_src2 c address adj op ctx iregs rs = check_src c address adj op ctx iregs rs.
 Proof. exact check_src2_refines. Qed.
@@ -585,6 +592,12 @@ Theorem c19_analyze_dinstr_src_refines : forall di pc,
 Proof. exact analyze_dinstr_src_refines. Qed.
 Print Assumptions c19_analyze_dinstr_src_refines.
 
+(* MinidumpMemoryInfo::is_readable / is_writable / is_executable: the flag sets are compiled to masks over the numeric
+   MemoryProtection bits of minidump-common (protection = from_bits_truncate(raw.protection)) *)
+Theorem c19_regions_of_info_src_refines : forall l, regions_of_info_src l = regions_of_info l.
+Proof. exact regions_of_info_src_refines. Qed.
+Print Assumptions c19_regions_of_info_src_refines.
+
 (* the whole path from the raw records, for an arbitrary instruction analysis: c19_the_property and every other
    theorem about dump_pipeline / dump_adj is a theorem about what the correspondence run executes *)
 Theorem c19_dump_pipeline_src_refines : forall analysis arch pid e pc rs,
@@ -608,7 +621,7 @@ Theorem c19_the_property_src : forall analysis arch platform_id e pc l,
   let os := os_class (dump_os platform_id) in
   let r := dump_reason arch platform_id e in
   let address := dump_address arch platform_id e in
-  let flips := dump_pipeline_src analysis arch platform_id e pc (regions_of_info l) in
+  let flips := dump_pipeline_src analysis arch platform_id e pc (regions_of_info_src l) in
   (forall f, In f flips ->
      exists a j, examined_by analysis c os r address pc f a /\
                  inaccessible (regions_of_info l) (memop_of_reason r) a /\
